@@ -211,9 +211,64 @@ def check_usable(ctx, spec, b, ref, g, tag):
                 return
 
 
+_CORPUS = None
+
+
+def corpus():
+    global _CORPUS
+    if _CORPUS is None:
+        from ..corpus import all_corpus_specs
+
+        _CORPUS = all_corpus_specs(os.environ.get("VERIF_REPO", "/repo"))
+    return _CORPUS
+
+
+def directed(tier):
+    """the shipped grammars (geml.grammars) and the hierarchies of the test-suite, analysed under seeded set orders"""
+    try:
+        n = len(corpus()[0])
+    except BaseException:
+        return []
+    return [{"run_index": 10**6 + i, "params": {"corpus": i}} for i in range(n)]
+
+
+def run_corpus(ctx, idx):
+    from ..corpus import CorpusBuilt
+
+    specs, skipped = corpus()
+    spec, cls_by_name = specs[idx]
+    ref = Ref(spec)
+    ctx.sample = {"corpus": spec["origin"], "classes": len(spec["classes"]), "considered": len(spec["considered"])}
+    ctx.stat("corpus_specs")
+    results = []
+    for order in (ctx.S.draw(2**16), ctx.S.draw(2**16) or 1):
+        set_order_seed(order)
+        b = CorpusBuilt(spec, cls_by_name)
+        ref.built = b
+        try:
+            g = b.extract()
+        except Exception as e:
+            from ..world import lib_error_types
+
+            if isinstance(e, lib_error_types()):
+                ctx.stat("corpus_rejected_by_library")  # e.g. the deliberately invalid class of grammar_test
+                return
+            ctx.violate(f"C05/extract-raises/{type(e).__name__}@{exc_site(e)}", f"corpus {spec['origin']}: extract_grammar raised {short_tb(e)}")
+            return
+        a = compare(ctx, spec, b, ref, g, f"corpus {spec['origin']} order seed {order}")
+        check_usable(ctx, spec, b, ref, g, f"corpus {spec['origin']} order seed {order}")
+        results.append(a)
+    ctx.nontrivial = True
+    ctx.log("corpus", spec["origin"])
+    if len(results) == 2 and results[0] != results[1]:
+        ctx.violate("C05/schedule-dependent/corpus", f"corpus {spec['origin']}: analysis differs between iteration orders")
+
+
 def run(ctx):
     H = ctx.H
     install_set_order()
+    if ctx.params.get("corpus") is not None:
+        return run_corpus(ctx, ctx.params["corpus"])
     if H.draw(4) == 3:
         # grammar-expansion depthing: modelled where the documentation defines it (no lists, tuples, unions)
         spec = gen_spec(H, features(**{**FEAT, "list": 0, "annlist": 0, "union": 0, "tuple": 0, "interval": 0}))
@@ -258,7 +313,7 @@ def run(ctx):
         ctx.violate(f"C05/schedule-dependent/{'+'.join(keys)}", f"analysis differs between iteration orders {s1} and {s2}: {keys}")
     ctx.stat("specs")
     # N2': fresh interpreters, real set order
-    if ctx.run_index % 50 == 7 and results:
+    if ctx.run_index % (100 if ctx.tier == "quick" else 25) == 7 and results:
         envs = fresh_analyses(spec, n=3 if ctx.tier == "quick" else 6)
         ctx.stat("fresh_interpreter_analyses", len(envs))
         for env, res in envs:
